@@ -3,6 +3,8 @@ import collections
 import clirun
 import clifam
 import vlib
+import drvmodel
+from props import C17 as c17mod
 
 PID = "C16"
 NEEDS_CLI = True
@@ -87,6 +89,7 @@ def execute(cases, tier):
     cats = collections.Counter()
     keys = set()
     mcases, rows = [], []
+    dcases, dexp = [], []      # parallel runs replayed by the driver model (coq/Driver.v), fail-fast and refusals included
     for ci, c in enumerate(cases):
         sb = clirun.Sandbox("c16")
         try:
@@ -153,6 +156,14 @@ def execute(cases, tier):
             code = {"OK": 0, "FAILED": 1, "CANCELLED": 2, "SKIPPED": 3}
             mcases.append([[code.get(got.get(p), 1) for p in [x[0] for x in st if x[0] in truth]], bool(c["fail_fast"]), False])
             rows.append((c, r, got))
+        if c["jobs"] and not has_panic and not r["hung"] and c.get("engine_ok", True):
+            try:
+                tr, _ = c17mod.build_trace(r["events"])
+                wire, exp = drvmodel.model_case(c, tr, [(p, tag) for p, tag, _ in st], c["jobs"], False, bool(c["fail_fast"]))
+                dcases.append(wire)
+                dexp.append((c, r, exp, None))
+            except drvmodel.Unexplained as ex:
+                dexp.append((c, r, None, str(ex)))
         if any(v != "ok" for v in truth.values()):
             keys.add(repr((c["files"], c["rules"], c["jobs"], c["fail_fast"])))
         if spec:
@@ -169,7 +180,31 @@ def execute(cases, tier):
         if (r["rc"] == 0) != want_rc0:
             disagreements.append({"case": c, "impl": {"rc": r["rc"], "results": got}, "model": m,
                                   "spec": "contradicts L1 (C16_exit): exit status %r, the drivers' bookkeeping on the observed results gives %r" % (r["rc"], m), "broken": "corr_C16_cli"})
-    stats = {"evaluations": len(cases), "model_evaluations": len(mcases), "distinct_nontrivial": len(keys), "rule": RULE,
+    douts = vlib.run_model("driver", dcases)
+    vm_n += vlib.vm_crosscheck("driver", dcases, douts, 5, PID + "d")
+    k = 0
+    for (c, r, exp, why) in dexp:
+        if exp is not None:
+            why = drvmodel.compare(douts[k], exp, r["rc"])
+            k += 1
+            cats["driver_model_replayed"] += 1
+            if c["fail_fast"]:
+                cats["driver_model_replayed_fail_fast"] += 1
+        if why:
+            def run_once(c=c):
+                sb = clirun.Sandbox("c16r")
+                try:
+                    sb.write_files(c["files"])
+                    r2 = sb.run(["-j", str(c["jobs"])] + (["--fail-fast"] if c["fail_fast"] else []) + ["t/**/*.slt"], scenario={"rules": c["rules"]}, timeout=90)
+                finally:
+                    sb.close()
+                return r2, c17mod.build_trace(r2["events"])[0], clirun.status_lines(r2["stdout"])
+            cats["driver_model_rechecked"] += 1
+            why = drvmodel.recheck(c, run_once, c["jobs"], False, bool(c["fail_fast"]))
+        if why:
+            disagreements.append({"case": c, "impl": {"stdout": r["stdout"][-800:], "rc": r["rc"]}, "model": "coq/Driver.v replayed on the schedule reconstructed from the run",
+                                  "spec": None, "note": "the run is not a run of the driver model: " + why, "broken": "corr_C16_driver_model"})
+    stats = {"evaluations": len(cases), "model_evaluations": len(mcases) + len(dcases), "distinct_nontrivial": len(keys), "rule": RULE,
              "categories": dict(sorted(cats.items())), "vm_compute_crosschecked": vm_n,
              "samples": [{"files": [f[0] for f in c["files"]], "truth": c["truth"], "jobs": c["jobs"], "fail_fast": c["fail_fast"]} for c in cases[:3]],
              "disagreements": len(disagreements)}
